@@ -210,3 +210,83 @@ class CIDRConvertNative(Contract):
 
     def frame_ok(self, I, inp, obj, name):
         return False
+
+
+@register
+class CIDRPostInit(Contract):
+    """SigmaCIDRExpression.__post_init__: the network is what the standard library's ip_network (either address family, every spelling it
+    accepts - mixed IPv6 notation with a dotted-quad tail, netmask notation, bare addresses) gives for the text; what it rejects is a
+    Sigma type error carrying the source"""
+    id = "C18.SigmaCIDRExpression.__post_init__"
+    target = "sigma.types:SigmaCIDRExpression.__post_init__"
+    props = ("C18",)
+    cases = ("valid", "invalid")
+    assumed = ["ipaddress.ip_network is external (trusted): its verdict on the text is symbolic; IPv4Network / IPv6Network are the one-family parsers, distinct from it"]
+
+    def setup(self, E):
+        from pyvc.interp import PyRaise
+        calls = []
+        E._c18_calls = calls
+
+        def parser(kind):
+            def f(I, a, k):
+                calls.append((kind, list(a), dict(k)))
+                if E._c18_case == "invalid":
+                    raise PyRaise(ExcValue("ValueError", ("does not appear to be an IPv4 or IPv6 network",)))
+                return SObj("Network", {"kind": kind, "text": a[0]})
+            return f
+        for mod in ("ipaddress", "sigma.types"):
+            E.externals[f"{mod}.ip_network"] = parser("either family")
+            E.externals[f"{mod}.IPv4Network"] = parser("IPv4 only")
+            E.externals[f"{mod}.IPv6Network"] = parser("IPv6 only")
+
+    def args(self, I, case):
+        I.E._c18_case = case
+        del I.E._c18_calls[:]
+        text, src = I.fresh("cidr", "str"), SObj("Location", {})
+        me = SObj(I.E.index.lookup("sigma.types:SigmaCIDRExpression"), {"cidr": text, "source": src})
+        return {"self": me, "args": [], "text": text, "src": src, "case": case}
+
+    def post(self, I, inp, r):
+        c = I.ctx
+        c.require(inp["case"] == "valid", "a text the standard library rejects is not accepted")
+        n = inp["self"].fields.get("network")
+        ok = isinstance(n, SObj) and n.cls == "Network" and n.fields["text"] is inp["text"] and I.E._c18_calls[-1][2] in ({}, {"strict": True})
+        c.require(ok, "the network is parsed by the standard library from the text itself, host bits rejected")
+        if ok and n.fields["kind"] != "either family":
+            # a one-family parser is ip_network exactly when the family is chosen by the colon (every IPv6 spelling has one, no IPv4 spelling does)
+            colon = z3.Contains(inp["text"].t, z3.StringVal(":"))
+            c.require(colon if n.fields["kind"] == "IPv6 only" else z3.Not(colon),
+                      f"the network is ip_network(text): the {n.fields['kind']} parser is used only for texts of that family (IPv6 spellings may end in a dotted quad, IPv4 ones may carry a netmask)")
+
+    def model_terms(self, inp):
+        return {"cidr": inp["text"].t}
+
+    def raises(self, I, inp, exc):
+        c = I.ctx
+        c.require(inp["case"] == "invalid" and exc_is(I, exc, "SigmaTypeError"), f"a rejected text is a SigmaTypeError, a valid one is accepted (got {exc_name(exc)})")
+        if isinstance(exc, SObj):
+            c.require(exc.fields.get("source") is inp["src"], "the error carries the source of the value")
+
+    def frame_ok(self, I, inp, obj, name):
+        return obj is inp["self"] and name == "network"
+
+    def candidates(self):
+        return ({"cidr": t} for t in ("64:ff9b::10.0.0.0/104", "::ffff:10.0.0.0/104", "10.0.0.0/255.0.0.0", "10.0.0.0/8", "2001:db8::/32", "1.2.3.4", "::1", "10.0.0.1/8", "x", "1.2.3/8", "::/129"))
+
+    def replay(self, values):
+        if "cidr" not in values:
+            return None
+        import ipaddress
+        from sigma.types import SigmaCIDRExpression
+        from sigma.exceptions import SigmaTypeError
+        t = values["cidr"]
+        try:
+            want = ipaddress.ip_network(t)
+        except ValueError:
+            want = None
+        try:
+            got = SigmaCIDRExpression(t).network
+        except SigmaTypeError:
+            got = None
+        return None if got == want else f"SigmaCIDRExpression({t!r}): network {got}, the standard library gives {want}"
